@@ -144,6 +144,36 @@ def direct_sampling(c, m, n, noise_form, prior_form, public=False):
     c.holds('samples_carry_domain_geometry', S.geometry == BP.model.domain_geometry and S.samples.shape == (n, 2))
 
 
+def direct_route_with_transforming_geometry(c, geom):
+    """public sample_posterior on a linear-Gaussian problem whose domain geometry TRANSFORMS the parameters (the stored matrix acts on function values):
+    either another sampler is selected, or the draws of the closed-form sampler are x_MAP + L e with L L^T the inverse of minus the Hessian of the
+    posterior's own log-density in the PARAMETERS (bounded stand-in: native)"""
+    BP, n = _problem(c, 2, 2, 'scalar', 'scalar', geom=geom)
+    post = BP.posterior
+    e = [c.vec(f'e{s}_', n) for s in range(2)]
+    class _Other(Exception): pass
+    def other(*a, **k): raise _Other()
+    for nm in ('_sampleLinearRTO', '_sampleNUTS', '_samplepCN', '_sampleUGLA', '_sampleCWMH', '_sampleRegularizedLinearRTO', '_sampleGibbs'):
+        if hasattr(BP, nm): setattr(BP, nm, other)
+    direct = getattr(BP, '_sampleMapCholesky'); used = []
+    def spy(*a, **k):
+        used.append(1)
+        for s_ in range(2): c._numq['normal'].append(e[s_])
+        c._patch_random()
+        return direct(*a, **k)
+    BP._sampleMapCholesky = spy
+    import io, contextlib, warnings
+    try:
+        with contextlib.redirect_stdout(io.StringIO()), warnings.catch_warnings():
+            warnings.simplefilter('ignore'); S = BP.sample_posterior(2)
+    except _Other:
+        c.holds('another_sampler_is_selected', not used); return
+    xmap = np.asarray(BP.MAP(disp=False))
+    H = -c.hessian_of(lambda v: post.logd(v), n)
+    L = np.linalg.cholesky(np.linalg.inv(H))
+    c.eq('closed_form_draws_have_the_covariance_factor_of_the_posterior_of_the_parameters', S.samples[:, 0] - xmap, L @ e[0], tol=1e-3)
+
+
 class StubSolver:
     calls = []
     def __init__(self, func, x0, gradfunc=None, **kw):
@@ -221,6 +251,32 @@ def optimisation_native(c, prior_kind):
         c.holds(f'no_nearby_point_larger[{k}]', bool(BP.posterior.logd(p) <= BP.posterior.logd(np.asarray(est)) + 1e-8))
 
 
+def ml_transforming_geometry(c, geom, proj='mean'):
+    """ML (and MAP) through the optimiser on a linear model whose domain geometry transforms the parameters (KL / step expansion): the returned point is
+    the maximiser in the PARAMETERS - compared with the closed-form least-squares solution of the effective matrix A par2fun - or the call raises
+    (bounded stand-in: native)"""
+    m = 5; n = 3
+    if geom == 'KL': gd = cuqi.geometry.KLExpansion(np.linspace(0, 1, 6), num_modes=n)
+    else: gd = cuqi.geometry.StepExpansion(np.linspace(0, 1, 6), n_steps=n, fun2par_projection=proj)
+    A = np.array([[c.real(f'A{i}{j}') for j in range(gd.fun_dim)] for i in range(m)])
+    model = LinearModel(A, range_geometry=m, domain_geometry=gd)
+    x = Gaussian(np.zeros(n), 1.0, geometry=gd, name='x'); y = Gaussian(model(x), 0.3, name='y')
+    data = np.array([c.real(f'y{i}') for i in range(m)])
+    BP = BayesianProblem(y, x).set_data(y=data)
+    B = np.column_stack([A @ gd.par2fun(e) for e in np.eye(n)])             # effective parameter-to-data matrix
+    import io, contextlib, warnings
+    for which in ('ML', 'MAP'):
+        try:
+            with contextlib.redirect_stdout(io.StringIO()), warnings.catch_warnings():
+                warnings.simplefilter('ignore'); est = np.asarray(getattr(BP, which)(disp=False) if which == 'MAP' else BP.ML(disp=False))
+        except Exception:
+            c.holds(f'{which}:failure_is_reported_by_raising', True); continue
+        ref = np.linalg.solve(B.T @ B / 0.3 + (np.eye(n) if which == 'MAP' else 0), B.T @ data / 0.3)
+        obj = (lambda v: BP.likelihood.logd(v)) if which == 'ML' else (lambda v: BP.posterior.logd(v))
+        c.holds(f'{which}:returned_point_is_not_worse_than_the_closed_form_maximiser', bool(obj(est) >= obj(ref) - 1e-4 * (1 + abs(obj(ref)))),
+                note=f"log-density {float(obj(est)):.6g} at the estimate, {float(obj(ref)):.6g} at the closed-form maximiser")
+
+
 def jobs(tier):
     J = []
     q = tier == 'quick'
@@ -240,6 +296,9 @@ def jobs(tier):
     for (m, n, nf, pf) in [(2, 2, 'scalar', 'scalar'), (2, 2, 'vector', 'vector'), (1, 2, 'scalar', 'vector')] + [(2, 2, 'dense', 'vector')] + ([] if q else [(2, 2, 'dense', 'dense')]):
         J.append(Job(f'sample_posterior:direct:m={m}:n={n}:noise={nf}:prior={pf}', lambda c, a=(m, n, nf, pf): direct_sampling(c, *a), 'B' if 'dense' in (nf, pf) else 'Pbox',   # B B^T H = I with a dense covariance exceeds the provers' budget: bounded stand-in
                      [f'{PR}:BayesianProblem._sampleMapCholesky'] + FL, rtol=1e-4, timeout=600, allow_exc=True))
+    for geom in ('KLfull', 'Step'):
+        J.append(Job(f'sample_posterior:public_entry_point:geometry={geom}', lambda c, g=geom: direct_route_with_transforming_geometry(c, g), 'B',
+                     [f'{PR}:BayesianProblem.sample_posterior', f'{PR}:BayesianProblem._sampleMapCholesky'], nnum=3, allow_exc=True))
     J.append(Job('sample_posterior:public_entry_point:m=2:n=2:noise=vector:prior=vector', lambda c: direct_sampling(c, 2, 2, 'vector', 'vector', True), 'Pbox',
                  [f'{PR}:BayesianProblem.sample_posterior', f'{PR}:BayesianProblem._sampleMapCholesky'] + FL, rtol=1e-4, timeout=600, allow_exc=True))
     for (nf, pf, npar, ppar, cc) in (('vector', 'vector', 'cov', 'cov', False), ('scalar', 'vector', 'cov', 'cov', False), ('vector', 'vector', 'prec', 'cov', True),
@@ -253,5 +312,8 @@ def jobs(tier):
             J.append(Job(f'{which}:optimisation_route:wrapper:prior={pk}', lambda c, w=which, pk=pk: optimisation_route(c, w, pk), 'Pbox',
                          [f'{PR}:BayesianProblem._solve_max_point', f'{PR}:BayesianProblem.{which}'], extra=_opt_extra, num=False))
     J.append(Job('MAP:optimisation_route:objective_undefined_at_the_start_point', optimisation_failure, 'B', [f'{PR}:BayesianProblem._solve_max_point'], nnum=3))
+    for geom, proj in (('KL', 'mean'), ('Step', 'mean'), ('Step', 'max')):
+        J.append(Job(f'ML_and_MAP:optimisation_route:geometry={geom}:{proj}', lambda c, g=geom, pj=proj: ml_transforming_geometry(c, g, pj), 'B',
+                     [f'{PR}:BayesianProblem._solve_max_point', f'{PR}:BayesianProblem.ML', 'cuqi.model._model:Model._check_gradient_can_be_computed'], nnum=3))
     J.append(Job('MAP:optimisation_route:first_order_optimality', lambda c: optimisation_native(c, 'Gaussian'), 'B', [f'{PR}:BayesianProblem._solve_max_point'], nnum=6))
     return J
